@@ -40,13 +40,6 @@ Proof.
   rewrite !outs_from_cons, IH, app_assoc. reflexivity.
 Qed.
 
-Lemma wf_from_app : forall ops1 ops2 tr,
-  wf_from tr (ops1 ++ ops2) = wf_from tr ops1 && wf_from (track_from tr ops1) ops2.
-Proof.
-  induction ops1 as [|o ops1 IH]; intros; simpl; [reflexivity|].
-  rewrite IH, andb_assoc. reflexivity.
-Qed.
-
 Lemma memn_In : forall o l, memn o l = true <-> In o l.
 Proof.
   intros. unfold memn. rewrite existsb_exists. split.
@@ -200,10 +193,12 @@ Section InvStep.
   Lemma Inv_close : forall s, Inv (r_st (step st (Close s))).
   Proof.
     intros. simpl. destruct (st_sub st s) as [i|] eqn:Hs; simpl; [|exact I].
+    destruct (st_closed st s) eqn:Hcl; simpl; [exact I|].
     destruct (2 <=? rs_ref (st_rs st (i_res (st_inf st i)))) eqn:Hge; simpl.
     - apply Nat.leb_le in Hge. constructor; simpl; intros; upd_cases; try fin.
-    - apply Nat.leb_gt in Hge. destruct (i_stopped (st_inf st i)) eqn:Hst; simpl; [exact I|].
-      constructor; simpl; intros; upd_cases; try fin.
+    - apply Nat.leb_gt in Hge. destruct (i_stopped (st_inf st i)) eqn:Hst; simpl.
+      + destruct I; constructor; simpl; assumption.
+      + constructor; simpl; intros; upd_cases; try fin.
   Qed.
 
   Lemma Inv_event : forall r k o, Inv (r_st (step st (Event r k o))).
@@ -251,7 +246,8 @@ Record Sim (a : nat) (s1 s2 : state) : Prop := mkSim {
   sim_nsub : st_nsub s1 = st_nsub s2;
   sim_sub : forall s, st_sub s1 s = st_sub s2 s;
   sim_rs : forall r, st_rs s1 r = st_rs s2 r;
-  sim_inf : forall i, isim a (st_inf s1 i) (st_inf s2 i) }.
+  sim_inf : forall i, isim a (st_inf s1 i) (st_inf s2 i);
+  sim_closed : forall s, st_closed s1 s = st_closed s2 s }.
 
 Lemma Sim_refl : forall a s, Sim a s s.
 Proof. intros a s. constructor; try reflexivity. intro i. repeat split. Qed.
@@ -340,18 +336,18 @@ Lemma stepA : forall a s1 s2 o, Sim a s1 s2 ->
   filter (not_to_sub a) (r_out (step s1 o)) = filter (not_to_sub a) (r_out (step s2 o)) /\
   r_panic (step s1 o) = r_panic (step s2 o).
 Proof.
-  intros a s1 s2 o [Hni Hns Hsub Hrs Hinf].
-  destruct s1 as [ni1 inf1 ns1 sub1 rs1], s2 as [ni2 inf2 ns2 sub2 rs2].
-  simpl in Hni, Hns, Hsub, Hrs, Hinf. subst ni2 ns2.
-  destruct o as [r | s h own | s | s | r k o | s h]; unfold step; cbn [st_ninf st_inf st_nsub st_sub st_rs].
+  intros a s1 s2 o [Hni Hns Hsub Hrs Hinf Hcl].
+  destruct s1 as [ni1 inf1 ns1 sub1 rs1 cl1], s2 as [ni2 inf2 ns2 sub2 rs2 cl2].
+  simpl in Hni, Hns, Hsub, Hrs, Hinf, Hcl. subst ni2 ns2.
+  destruct o as [r | s h own | s | s | r k o | s h]; unfold step; cbn [st_ninf st_inf st_nsub st_sub st_rs st_closed].
   - (* Subscribe *)
     rewrite (Hrs r). destruct (rs_cur (rs2 r)) as [i|]; cbn [r_st r_out r_panic].
     + split; [|split; reflexivity].
-      constructor; cbn [st_ninf st_inf st_nsub st_sub st_rs]; auto.
+      constructor; cbn [st_ninf st_inf st_nsub st_sub st_rs st_closed]; auto.
       * apply upd_eq; assumption.
       * apply upd_eq; assumption.
     + split; [|split; reflexivity].
-      constructor; cbn [st_ninf st_inf st_nsub st_sub st_rs]; auto.
+      constructor; cbn [st_ninf st_inf st_nsub st_sub st_rs st_closed]; auto.
       * apply upd_eq; assumption.
       * apply upd_eq; assumption.
       * apply upd_rel; [assumption|]. repeat split.
@@ -359,58 +355,63 @@ Proof.
     rewrite (Hsub s). destruct (sub2 s) as [i|]; cbn [r_st r_out r_panic].
     + destruct (Hinf i) as (Hr & Hst & Hc & Hh).
       split; [|split; [rewrite Hc; reflexivity | reflexivity]].
-      constructor; cbn [st_ninf st_inf st_nsub st_sub st_rs]; auto.
+      constructor; cbn [st_ninf st_inf st_nsub st_sub st_rs st_closed]; auto.
       apply upd_rel; [assumption|].
       unfold isim, set_hs; cbn [i_res i_stopped i_cache i_hs].
       repeat split; auto. rewrite !hs_but_app, Hh. reflexivity.
     + split; [|split; reflexivity].
-      constructor; cbn [st_ninf st_inf st_nsub st_sub st_rs]; auto.
+      constructor; cbn [st_ninf st_inf st_nsub st_sub st_rs st_closed]; auto.
   - (* RemoveHandlers *)
     rewrite (Hsub s). destruct (sub2 s) as [i|]; cbn [r_st r_out r_panic].
     + destruct (Hinf i) as (Hr & Hst & Hc & Hh).
       split; [|split; reflexivity].
-      constructor; cbn [st_ninf st_inf st_nsub st_sub st_rs]; auto.
+      constructor; cbn [st_ninf st_inf st_nsub st_sub st_rs st_closed]; auto.
       apply upd_rel; [assumption|].
       unfold isim, set_hs; cbn [i_res i_stopped i_cache i_hs].
       repeat split; auto. unfold hs_but in *.
       rewrite (filter_comm _ _ (i_hs (inf1 i))), (filter_comm _ _ (i_hs (inf2 i))), Hh.
       reflexivity.
     + split; [|split; reflexivity].
-      constructor; cbn [st_ninf st_inf st_nsub st_sub st_rs]; auto.
+      constructor; cbn [st_ninf st_inf st_nsub st_sub st_rs st_closed]; auto.
   - (* Close *)
     rewrite (Hsub s). destruct (sub2 s) as [i|]; cbn [r_st r_out r_panic].
     + destruct (Hinf i) as (Hr & Hst & Hc & Hh).
+      rewrite (Hcl s). destruct (cl2 s); cbn [r_st r_out r_panic].
+      { split; [|split; reflexivity].
+        constructor; cbn [st_ninf st_inf st_nsub st_sub st_rs st_closed]; auto. }
       rewrite Hr, Hst, (Hrs (i_res (inf2 i))).
       destruct (2 <=? rs_ref (rs2 (i_res (inf2 i)))); cbn [r_st r_out r_panic].
       * split; [|split; reflexivity].
-        constructor; cbn [st_ninf st_inf st_nsub st_sub st_rs]; auto.
-        apply upd_eq; assumption.
+        constructor; cbn [st_ninf st_inf st_nsub st_sub st_rs st_closed]; auto;
+          apply upd_eq; assumption.
       * destruct (i_stopped (inf2 i)); cbn [r_st r_out r_panic].
         -- split; [|split; reflexivity].
-           constructor; cbn [st_ninf st_inf st_nsub st_sub st_rs]; auto.
+           constructor; cbn [st_ninf st_inf st_nsub st_sub st_rs st_closed]; auto.
+           apply upd_eq; assumption.
         -- split; [|split; reflexivity].
-           constructor; cbn [st_ninf st_inf st_nsub st_sub st_rs]; auto.
+           constructor; cbn [st_ninf st_inf st_nsub st_sub st_rs st_closed]; auto.
            ++ apply upd_eq; assumption.
            ++ apply upd_rel; [assumption|].
               unfold isim; cbn [i_res i_stopped i_cache i_hs]. repeat split; auto.
+           ++ apply upd_eq; assumption.
     + split; [|split; reflexivity].
-      constructor; cbn [st_ninf st_inf st_nsub st_sub st_rs]; auto.
+      constructor; cbn [st_ninf st_inf st_nsub st_sub st_rs st_closed]; auto.
   - (* Event *)
     rewrite (Hrs r). destruct (rs_cur (rs2 r)) as [i|]; cbn [r_st r_out r_panic].
     + destruct (Hinf i) as (Hr & Hst & Hc & Hh).
       rewrite Hc.
       split; [|split; [rewrite !filter_fanout, Hh; reflexivity | reflexivity]].
-      constructor; cbn [st_ninf st_inf st_nsub st_sub st_rs]; auto.
+      constructor; cbn [st_ninf st_inf st_nsub st_sub st_rs st_closed]; auto.
       * apply upd_eq; assumption.
       * apply upd_rel; [assumption|].
         unfold isim; cbn [i_res i_stopped i_cache i_hs]. repeat split; auto.
     + split; [|split; reflexivity].
-      constructor; cbn [st_ninf st_inf st_nsub st_sub st_rs]; auto.
+      constructor; cbn [st_ninf st_inf st_nsub st_sub st_rs st_closed]; auto.
       apply upd_eq; assumption.
   - (* Tick *)
     rewrite (Hsub s). destruct (sub2 s) as [i|]; cbn [r_st r_out r_panic].
     + destruct (Hinf i) as (Hr & Hst & Hc & Hh).
-      split; [constructor; cbn [st_ninf st_inf st_nsub st_sub st_rs]; auto|].
+      split; [constructor; cbn [st_ninf st_inf st_nsub st_sub st_rs st_closed]; auto|].
       split; [|reflexivity].
       rewrite Hc.
       destruct (Nat.eq_dec s a) as [E|E].
@@ -420,7 +421,7 @@ Proof.
       * rewrite (has_own_but a s h (i_hs (inf1 i)) E), (has_own_but a s h (i_hs (inf2 i)) E), Hh.
         reflexivity.
     + split; [|split; reflexivity].
-      constructor; cbn [st_ninf st_inf st_nsub st_sub st_rs]; auto.
+      constructor; cbn [st_ninf st_inf st_nsub st_sub st_rs st_closed]; auto.
 Qed.
 
 (* ---- Lemma B: the left side alone does an erased operation ---- *)
@@ -429,33 +430,33 @@ Lemma stepB : forall a s1 s2 o, is_handler_op_of a o = true -> Sim a s1 s2 ->
   filter (not_to_sub a) (r_out (step s1 o)) = [] /\
   r_panic (step s1 o) = false.
 Proof.
-  intros a s1 s2 o Ho [Hni Hns Hsub Hrs Hinf].
-  destruct s1 as [ni1 inf1 ns1 sub1 rs1], s2 as [ni2 inf2 ns2 sub2 rs2].
-  simpl in Hni, Hns, Hsub, Hrs, Hinf. subst ni2 ns2.
+  intros a s1 s2 o Ho [Hni Hns Hsub Hrs Hinf Hcl].
+  destruct s1 as [ni1 inf1 ns1 sub1 rs1 cl1], s2 as [ni2 inf2 ns2 sub2 rs2 cl2].
+  simpl in Hni, Hns, Hsub, Hrs, Hinf, Hcl. subst ni2 ns2.
   destruct o as [r | s h own | s | s | r k o | s h]; simpl in Ho; try discriminate Ho;
     apply Nat.eqb_eq in Ho; subst s;
-    unfold step; cbn [st_ninf st_inf st_nsub st_sub st_rs].
+    unfold step; cbn [st_ninf st_inf st_nsub st_sub st_rs st_closed].
   - (* AddHandler a *)
     destruct (sub1 a) as [i|]; cbn [r_st r_out r_panic].
     + split; [|split; [apply filter_replay_eq | reflexivity]].
-      constructor; cbn [st_ninf st_inf st_nsub st_sub st_rs]; auto.
+      constructor; cbn [st_ninf st_inf st_nsub st_sub st_rs st_closed]; auto.
       apply upd_rel_left; [assumption|].
       destruct (Hinf i) as (Hr & Hst & Hc & Hh).
       unfold isim, set_hs; cbn [i_res i_stopped i_cache i_hs].
       repeat split; auto. rewrite hs_but_app, <- Hh.
       unfold hs_but at 2. simpl. rewrite Nat.eqb_refl. simpl. apply app_nil_r.
     + split; [|split; reflexivity].
-      constructor; cbn [st_ninf st_inf st_nsub st_sub st_rs]; auto.
+      constructor; cbn [st_ninf st_inf st_nsub st_sub st_rs st_closed]; auto.
   - (* RemoveHandlers a *)
     destruct (sub1 a) as [i|]; cbn [r_st r_out r_panic].
     + split; [|split; reflexivity].
-      constructor; cbn [st_ninf st_inf st_nsub st_sub st_rs]; auto.
+      constructor; cbn [st_ninf st_inf st_nsub st_sub st_rs st_closed]; auto.
       apply upd_rel_left; [assumption|].
       destruct (Hinf i) as (Hr & Hst & Hc & Hh).
       unfold isim, set_hs; cbn [i_res i_stopped i_cache i_hs].
       repeat split; auto. rewrite <- Hh. unfold hs_but. apply filter_idem.
     + split; [|split; reflexivity].
-      constructor; cbn [st_ninf st_inf st_nsub st_sub st_rs]; auto.
+      constructor; cbn [st_ninf st_inf st_nsub st_sub st_rs st_closed]; auto.
 Qed.
 
 (* ---- runs ---- *)
@@ -716,7 +717,8 @@ Section LinkStep.
   Lemma Link_close : forall s, Link (track_step tr (Close s)) (r_st (step st (Close s))).
   Proof.
     intros s. simpl. destruct (st_sub st s) as [i|] eqn:Hs; simpl.
-    - destruct (2 <=? rs_ref (st_rs st (i_res (st_inf st i)))); simpl;
+    - destruct (st_closed st s); simpl; [constructor; simpl; apply L|].
+      destruct (2 <=? rs_ref (st_rs st (i_res (st_inf st i)))); simpl;
         [|destruct (i_stopped (st_inf st i)); simpl].
       + constructor; simpl.
         * apply (lk_nsub _ _ L).
@@ -879,6 +881,7 @@ Proof.
     + apply filter_In in He. destruct He as [He _]. subst i0. exact (N _ _ He).
     + exact (N _ _ He).
   - destruct (st_sub st s0) as [i|]; simpl; [|exact N].
+    destruct (st_closed st s0); simpl; [exact N|].
     destruct (2 <=? rs_ref (st_rs st (i_res (st_inf st i)))); simpl; [exact N|].
     destruct (i_stopped (st_inf st i)); simpl; [exact N|].
     intros i0 e He. unfold upd in He. destruct (Nat.eqb_spec i0 i); simpl in He.
@@ -900,6 +903,7 @@ Proof.
     apply filter_replay_other. apply Nat.eqb_neq. exact Hm.
   - destruct (st_sub st s0); reflexivity.
   - destruct (st_sub st s0) as [i|]; simpl; [|reflexivity].
+    destruct (st_closed st s0); simpl; [reflexivity|].
     destruct (2 <=? rs_ref (st_rs st (i_res (st_inf st i)))); simpl; [reflexivity|].
     destruct (i_stopped (st_inf st i)); reflexivity.
   - destruct (rs_cur (st_rs st r)) as [i|]; simpl; [|reflexivity].
@@ -951,10 +955,10 @@ Proof. intros. apply tick_delivery_gen; [apply Inv_run|apply Link_run]. Qed.
 End Link.
 
 (* ================================================================== *)
-(* reference counts under well-formed use of Close; Close is not idempotent; isolation of Close *)
+(* reference counts = open subscriptions for ALL sequences (closeOnce); repeated Close is a no-op; no panic; isolation of Close *)
 (* ================================================================== *)
 Module Wf.
-(* C18Wf.v — well-formed use of Close: refcount = number of open subscriptions,
+(* C18Wf.v — Close under closeOnce (all operation sequences): refcount = number of open subscriptions,
    no panic, liveness of open subscriptions, isolation of Close. *)
 Local Arguments Nat.leb : simpl never.   (* so that simpl keeps `2 <=? n` in the Close case of step *)
 
@@ -1031,6 +1035,41 @@ Proof.
   destruct H as [[s' r] [Hin E]]. simpl in E. apply Nat.eqb_eq in E. subst. exists r. assumption.
 Qed.
 
+(* list-level facts about "is s open" and removing s *)
+Local Notation opn s l := (existsb (fun p : nat * nat => Nat.eqb (fst p) s) l).
+
+Lemma opn_rm_same : forall s (l : list (nat * nat)), opn s (rm s l) = false.
+Proof.
+  induction l as [|p l IH]; simpl; [reflexivity|].
+  destruct (Nat.eqb (fst p) s) eqn:E; simpl; [exact IH|]. rewrite E. simpl. exact IH.
+Qed.
+
+Lemma opn_rm_other : forall s s' (l : list (nat * nat)), s' <> s -> opn s' (rm s l) = opn s' l.
+Proof.
+  intros s s' l Hne. induction l as [|p l IH]; simpl; [reflexivity|].
+  destruct (Nat.eqb_spec (fst p) s) as [E|E]; simpl.
+  - destruct (Nat.eqb_spec (fst p) s'); [congruence|]. simpl. exact IH.
+  - rewrite IH. reflexivity.
+Qed.
+
+Lemma opn_false_rm : forall s (l : list (nat * nat)), opn s l = false -> rm s l = l.
+Proof.
+  induction l as [|p l IH]; simpl; intros H; [reflexivity|].
+  apply orb_false_iff in H. destruct H as [H1 H2]. rewrite H1. simpl. f_equal. apply IH. exact H2.
+Qed.
+
+Lemma In_opn : forall (s r : nat) (l : list (nat * nat)), In (s, r) l -> opn s l = true.
+Proof.
+  intros s r l Hin. apply existsb_exists. exists (s, r). split; [assumption|]. simpl. apply Nat.eqb_refl.
+Qed.
+
+(* a Close through a subscription that is not open leaves the tracker as it is *)
+Lemma track_close_not_open : forall tr s, is_open tr s = false -> track_step tr (Close s) = tr.
+Proof.
+  intros tr s H. unfold is_open in H. unfold track_step. rewrite (opn_false_rm _ _ H).
+  destruct tr; reflexivity.
+Qed.
+
 (* ------------------------------------------------------------------ *)
 (* Part 1: the link between the tracker and the factory state          *)
 (* ------------------------------------------------------------------ *)
@@ -1039,16 +1078,29 @@ Record WLink (tr : tracker) (st : state) : Prop := {
   wl_ids : forall p, In p (t_open tr) -> fst p < t_nsub tr;
   wl_nodup : NoDup (map fst (t_open tr));
   wl_ref : forall r, rs_ref (st_rs st r) = open_count tr r;
-  wl_live : forall s r, In (s, r) (t_open tr) -> exists i, st_sub st s = Some i /\ rs_cur (st_rs st r) = Some i
+  wl_live : forall s r, In (s, r) (t_open tr) -> exists i, st_sub st s = Some i /\ rs_cur (st_rs st r) = Some i;
+  (* closeOnce has fired exactly for the subscriptions that were created and are not open any more *)
+  wl_closed : forall s, s < t_nsub tr -> st_closed st s = negb (is_open tr s);
+  wl_closed_fresh : forall s, t_nsub tr <= s -> st_closed st s = false
 }.
 
 Lemma WLink_init : WLink tr0 init.
-Proof. constructor; simpl; intros; try contradiction; try reflexivity. constructor. Qed.
+Proof. constructor; simpl; intros; try contradiction; try reflexivity; try lia. constructor. Qed.
 
-Lemma WLink_step : forall tr st o, Inv st -> WLink tr st -> wf_step tr o = true ->
+(* Close through a subscription that is not open: the step is literally a no-op *)
+Lemma close_not_open_step : forall tr st s, Inv st -> WLink tr st -> is_open tr s = false ->
+  step st (Close s) = mkRes st [] false.
+Proof.
+  intros tr st s I W Hop. simpl. destruct (st_sub st s) as [i|] eqn:Hs; [|reflexivity].
+  destruct (inv_sub st I s i Hs) as [Hlt _].
+  rewrite (wl_closed _ _ W s) by (rewrite (wl_nsub _ _ W); exact Hlt).
+  rewrite Hop. reflexivity.
+Qed.
+
+Lemma WLink_step : forall tr st o, Inv st -> WLink tr st ->
    WLink (track_step tr o) (r_st (step st o)) /\ r_panic (step st o) = false.
 Proof.
-  intros tr st o I W Hwf. destruct W as [Wn Wi Wd Wr Wl].
+  intros tr st o I W. pose proof W as W0. destruct W as [Wn Wi Wd Wr Wl Wc Wf].
   destruct o as [r|s h own|s|s|r k o|s h].
   - (* Subscribe *)
     assert (Hids : forall p, In p (t_open tr ++ [(t_nsub tr, r)]) -> fst p < S (t_nsub tr)).
@@ -1057,9 +1109,18 @@ Proof.
     assert (Hnd : NoDup (map fst (t_open tr ++ [(t_nsub tr, r)]))).
     { rewrite map_app. simpl. apply NoDup_snoc; [assumption|]. intro Hin.
       apply in_map_iff in Hin. destruct Hin as [p [E Hp]]. specialize (Wi p Hp). lia. }
+    assert (Hcl : forall s, s < S (t_nsub tr) ->
+              st_closed st s = negb (opn s (t_open tr ++ [(t_nsub tr, r)]))).
+    { intros s0 Hs0. rewrite existsb_app. simpl. destruct (Nat.eqb_spec (t_nsub tr) s0) as [E|E].
+      - rewrite orb_true_r. simpl. apply Wf. lia.
+      - simpl. rewrite orb_false_r. apply (Wc s0). lia. }
+    assert (Hfr : forall s, S (t_nsub tr) <= s -> st_closed st s = false).
+    { intros s0 Hs0. apply Wf. lia. }
     simpl. destruct (rs_cur (st_rs st r)) as [i|] eqn:Hc; simpl; (split; [|reflexivity]).
-    + constructor; simpl; try assumption.
+    + constructor; simpl.
       * congruence.
+      * exact Hids.
+      * exact Hnd.
       * intros x. unfold open_count. simpl. rewrite cnt_snoc. unfold upd.
         destruct (Nat.eqb_spec x r).
         -- subst. rewrite Nat.eqb_refl. simpl. rewrite Wr. unfold open_count. lia.
@@ -1069,9 +1130,13 @@ Proof.
            exists j. rewrite upd_other by lia. split; [assumption|].
            unfold upd. destruct (Nat.eqb_spec x r); simpl; [subst; congruence|assumption].
         -- inversion Hp; subst. exists i. rewrite Wn, !upd_same. simpl. split; reflexivity.
+      * exact Hcl.
+      * exact Hfr.
     + assert (Hz : rs_ref (st_rs st r) = 0) by (apply (inv_ref st I); assumption).
-      constructor; simpl; try assumption.
+      constructor; simpl.
       * congruence.
+      * exact Hids.
+      * exact Hnd.
       * intros x. unfold open_count. simpl. rewrite cnt_snoc. unfold upd.
         destruct (Nat.eqb_spec x r).
         -- subst. rewrite Nat.eqb_refl. simpl. rewrite Wr in Hz. unfold open_count in Hz. lia.
@@ -1081,45 +1146,71 @@ Proof.
            exists j. rewrite upd_other by lia. split; [assumption|].
            unfold upd. destruct (Nat.eqb_spec x r); simpl; [subst; congruence|assumption].
         -- inversion Hp; subst. exists (st_ninf st). rewrite Wn, !upd_same. simpl. split; reflexivity.
+      * exact Hcl.
+      * exact Hfr.
   - (* AddHandler *)
     simpl. assert (Ht : WLink (if s <? t_nsub tr
                    then mkTr (t_nsub tr) (t_open tr) (upd (t_reg tr) s (t_reg tr s ++ [(h, own)])) (t_store tr)
                    else tr) st).
     { destruct (s <? t_nsub tr); constructor; simpl; assumption. }
     destruct (st_sub st s) as [i|] eqn:Hs; simpl; (split; [|reflexivity]); [|exact Ht].
-    destruct Ht as [Tn Ti Td Tr Tl]. constructor; simpl; assumption.
+    destruct Ht as [Tn Ti Td Tr Tl Tc Tf]. constructor; simpl; assumption.
   - (* RemoveHandlers *)
     simpl. destruct (st_sub st s) as [i|] eqn:Hs; simpl; (split; [|reflexivity]);
       constructor; simpl; assumption.
   - (* Close *)
-    simpl in Hwf. apply is_open_In in Hwf. destruct Hwf as [r Hin].
-    destruct (Wl s r Hin) as [i [Hs Hc]].
-    destruct (inv_cur st I r i Hc) as [Hi [Hres Hstop]].
-    destruct (cnt_rm s r (t_open tr) Wd Hin) as [Hcnt Hoth].
-    pose proof (Wr r) as Hr. unfold open_count in Hr.
-    assert (Hnd : NoDup (map fst (rm s (t_open tr)))) by (apply NoDup_map_fst_filter; assumption).
-    assert (Hids : forall p, In p (rm s (t_open tr)) -> fst p < t_nsub tr).
-    { intros p Hp. apply filter_In in Hp. apply Wi. apply Hp. }
-    simpl. rewrite Hs, Hres.
-    destruct (2 <=? rs_ref (st_rs st r)) eqn:Hge; simpl.
-    + apply Nat.leb_le in Hge. split; [|reflexivity]. constructor; simpl; try assumption.
-      * intros x. unfold open_count. simpl. unfold upd. destruct (Nat.eqb_spec x r); simpl.
-        -- subst. lia.
-        -- rewrite (Hoth x n). apply Wr.
-      * intros s' x Hp. apply filter_In in Hp. destruct Hp as [Hp _].
-        destruct (Wl s' x Hp) as [j [H1 H2]]. exists j. split; [assumption|].
-        unfold upd. destruct (Nat.eqb_spec x r); simpl; [subst; assumption|assumption].
-    + apply Nat.leb_gt in Hge. rewrite Hstop. simpl. split; [|reflexivity].
-      constructor; simpl; try assumption.
-      * intros x. unfold open_count. simpl. unfold upd. destruct (Nat.eqb_spec x r); simpl.
-        -- subst. lia.
-        -- rewrite (Hoth x n). apply Wr.
-      * intros s' x Hp.
-        assert (Hx : x <> r).
-        { intro; subst x. apply In_cnt_pos in Hp. lia. }
-        apply filter_In in Hp. destruct Hp as [Hp _].
-        destruct (Wl s' x Hp) as [j [H1 H2]]. exists j. split; [assumption|].
-        rewrite upd_other by assumption. assumption.
+    destruct (is_open tr s) eqn:Hop.
+    + (* s is open: the first Close through it *)
+      destruct (is_open_In _ _ Hop) as [r Hin].
+      destruct (Wl s r Hin) as [i [Hs Hc]].
+      destruct (inv_cur st I r i Hc) as [Hi [Hres Hstop]].
+      destruct (cnt_rm s r (t_open tr) Wd Hin) as [Hcnt Hoth].
+      pose proof (Wr r) as Hr. unfold open_count in Hr.
+      assert (Hlt : s < t_nsub tr) by (apply (Wi _ Hin)).
+      assert (Hcs : st_closed st s = false) by (rewrite (Wc s Hlt), Hop; reflexivity).
+      assert (Hnd : NoDup (map fst (rm s (t_open tr)))) by (apply NoDup_map_fst_filter; assumption).
+      assert (Hids : forall p, In p (rm s (t_open tr)) -> fst p < t_nsub tr).
+      { intros p Hp. apply filter_In in Hp. apply Wi. apply Hp. }
+      assert (Hc1 : forall s0, s0 < t_nsub tr ->
+                upd (st_closed st) s true s0 = negb (opn s0 (rm s (t_open tr)))).
+      { intros s0 Hs0. destruct (Nat.eq_dec s0 s) as [E|E].
+        - subst s0. rewrite upd_same, opn_rm_same. reflexivity.
+        - rewrite upd_other by assumption. rewrite opn_rm_other by assumption. exact (Wc s0 Hs0). }
+      assert (Hc2 : forall s0, t_nsub tr <= s0 -> upd (st_closed st) s true s0 = false).
+      { intros s0 Hs0. rewrite upd_other by lia. apply Wf. assumption. }
+      simpl. rewrite Hs. simpl. rewrite Hcs. simpl. rewrite Hres.
+      destruct (2 <=? rs_ref (st_rs st r)) eqn:Hge; simpl.
+      * apply Nat.leb_le in Hge. split; [|reflexivity]. constructor; simpl.
+        -- exact Wn.
+        -- exact Hids.
+        -- exact Hnd.
+        -- intros x. unfold open_count. simpl. unfold upd. destruct (Nat.eqb_spec x r); simpl.
+           ++ subst. lia.
+           ++ rewrite (Hoth x n). apply Wr.
+        -- intros s' x Hp. apply filter_In in Hp. destruct Hp as [Hp _].
+           destruct (Wl s' x Hp) as [j [H1 H2]]. exists j. split; [assumption|].
+           unfold upd. destruct (Nat.eqb_spec x r); simpl; [subst; assumption|assumption].
+        -- exact Hc1.
+        -- exact Hc2.
+      * apply Nat.leb_gt in Hge. rewrite Hstop. simpl. split; [|reflexivity].
+        constructor; simpl.
+        -- exact Wn.
+        -- exact Hids.
+        -- exact Hnd.
+        -- intros x. unfold open_count. simpl. unfold upd. destruct (Nat.eqb_spec x r); simpl.
+           ++ subst. lia.
+           ++ rewrite (Hoth x n). apply Wr.
+        -- intros s' x Hp.
+           assert (Hx : x <> r).
+           { intro; subst x. apply In_cnt_pos in Hp. lia. }
+           apply filter_In in Hp. destruct Hp as [Hp _].
+           destruct (Wl s' x Hp) as [j [H1 H2]]. exists j. split; [assumption|].
+           rewrite upd_other by assumption. assumption.
+        -- exact Hc1.
+        -- exact Hc2.
+    + (* s is not open (closed before, or never created): nothing happens on either side *)
+      rewrite (close_not_open_step tr st s I W0 Hop), (track_close_not_open tr s Hop).
+      simpl. split; [exact W0|reflexivity].
   - (* Event *)
     simpl. destruct (rs_cur (st_rs st r)) as [i|] eqn:Hc; simpl; (split; [|reflexivity]).
     + constructor; simpl; try assumption.
@@ -1135,20 +1226,18 @@ Proof.
       constructor; simpl; assumption.
 Qed.
 
-Lemma WLink_run_from : forall ops tr st, Inv st -> WLink tr st -> wf_from tr ops = true ->
+Lemma WLink_run_from : forall ops tr st, Inv st -> WLink tr st ->
    WLink (track_from tr ops) (run_from st ops) /\ panics_from st ops = false.
 Proof.
-  induction ops as [|o ops IH]; intros tr st I W Hwf; simpl.
+  induction ops as [|o ops IH]; intros tr st I W; simpl.
   - split; [assumption|reflexivity].
-  - simpl in Hwf. apply andb_true_iff in Hwf. destruct Hwf as [H1 H2].
-    destruct (WLink_step tr st o I W H1) as [W' Hp].
-    destruct (IH _ _ (Inv_step st o I) W' H2) as [W'' Hp'].
+  - destruct (WLink_step tr st o I W) as [W' Hp].
+    destruct (IH _ _ (Inv_step st o I) W') as [W'' Hp'].
     split; [assumption|]. rewrite Hp, Hp'. reflexivity.
 Qed.
 
-Lemma WLink_run : forall ops, wf_ops ops = true ->
-  WLink (track ops) (run ops) /\ panics_from init ops = false.
-Proof. intros ops H. apply WLink_run_from; [apply Inv_init|apply WLink_init|exact H]. Qed.
+Lemma WLink_run : forall ops, WLink (track ops) (run ops) /\ panics_from init ops = false.
+Proof. intros ops. apply WLink_run_from; [apply Inv_init|apply WLink_init]. Qed.
 
 (* ------------------------------------------------------------------ *)
 (* Part 2: theorems                                                     *)
@@ -1162,17 +1251,17 @@ Proof.
   - split; [discriminate|]. intro H. rewrite (H1 eq_refl) in H. lia.
 Qed.
 
-Theorem refcount_is_open_count : forall ops r, wf_ops ops = true ->
+Theorem refcount_is_open_count : forall ops r,
   refcount (run ops) r = open_count (track ops) r /\
   (running (run ops) r = true <-> 0 < open_count (track ops) r).
 Proof.
-  intros ops r Hwf. destruct (WLink_run ops Hwf) as [W _].
+  intros ops r. destruct (WLink_run ops) as [W _].
   assert (E : refcount (run ops) r = open_count (track ops) r) by (apply (wl_ref _ _ W)).
   split; [exact E|]. rewrite <- E. apply running_iff_refcount.
 Qed.
 
-Theorem wf_no_panic : forall ops, wf_ops ops = true -> panics_from init ops = false.
-Proof. intros ops Hwf. apply (WLink_run ops Hwf). Qed.
+Theorem no_panic : forall ops, panics_from init ops = false.
+Proof. intros ops. apply (WLink_run ops). Qed.
 
 Lemma WLink_sub_live : forall tr st s r, Inv st -> WLink tr st -> In (s, r) (t_open tr) ->
   sub_live st s = true /\ sub_res st s = Some r.
@@ -1183,43 +1272,76 @@ Proof.
 Qed.
 
 (* every open subscription is attached to the running informer of its resource *)
-Theorem open_sub_is_live : forall ops s r, wf_ops ops = true -> In (s, r) (t_open (track ops)) ->
+Theorem open_sub_is_live : forall ops s r, In (s, r) (t_open (track ops)) ->
   sub_live (run ops) s = true /\ sub_res (run ops) s = Some r.
 Proof.
-  intros ops s r Hwf Hin. destruct (WLink_run ops Hwf) as [W _].
+  intros ops s r Hin. destruct (WLink_run ops) as [W _].
   eapply WLink_sub_live; eauto. apply Inv_run.
 Qed.
 
-Lemma close_live_step : forall st s r, Inv st ->
-  sub_live st s = true -> sub_res st s = Some r ->
-  refcount (r_st (step st (Close s))) r = refcount st r - 1 /\
-  (refcount st r = 1 -> running (r_st (step st (Close s))) r = false) /\
-  r_panic (step st (Close s)) = false.
+(* Close through a subscription that is not open (closed before, or never created): NOTHING changes *)
+Theorem close_not_open_noop : forall ops s, is_open (track ops) s = false ->
+  step (run ops) (Close s) = mkRes (run ops) [] false.
 Proof.
-  intros st s r I Hl Hr. unfold sub_live in Hl. unfold sub_res in Hr.
-  destruct (st_sub st s) as [i|] eqn:Hs; [|discriminate].
-  injection Hr as Hr. rewrite Hr in Hl.
-  destruct (rs_cur (st_rs st r)) as [j|] eqn:Hc; [|discriminate].
-  apply Nat.eqb_eq in Hl. subst j.
-  destruct (inv_cur st I r i Hc) as [_ [_ Hstop]].
-  assert (Hnz : rs_ref (st_rs st r) <> 0).
-  { intro Hz. apply (inv_ref st I) in Hz. congruence. }
-  unfold refcount, running. simpl. rewrite Hs, Hr.
-  destruct (2 <=? rs_ref (st_rs st r)) eqn:Hge; simpl.
-  - apply Nat.leb_le in Hge. rewrite upd_same. simpl. repeat split. intro; lia.
-  - apply Nat.leb_gt in Hge. rewrite Hstop. simpl. rewrite upd_same. simpl.
-    repeat split. lia.
+  intros ops s H. destruct (WLink_run ops) as [W _].
+  apply (close_not_open_step (track ops)); [apply Inv_run|exact W|exact H].
 Qed.
 
-(* Close is not idempotent per subscription: EVERY call through a subscription attached to the running
-   informer decrements, whether or not that subscription was closed before *)
-Theorem close_always_decrements : forall ops s r,
-  sub_live (run ops) s = true -> sub_res (run ops) s = Some r ->
+Corollary repeated_close_no_effect : forall ops1 ops2 s, is_open (track ops1) s = false ->
+  run (ops1 ++ Close s :: ops2) = run (ops1 ++ ops2) /\
+  trace_from (run (ops1 ++ [Close s])) ops2 = trace_from (run ops1) ops2 /\
+  outs (ops1 ++ Close s :: ops2) = outs (ops1 ++ ops2) /\
+  track (ops1 ++ Close s :: ops2) = track (ops1 ++ ops2).
+Proof.
+  intros ops1 ops2 s H. pose proof (close_not_open_noop ops1 s H) as E.
+  assert (E1 : run (ops1 ++ [Close s]) = run ops1).
+  { rewrite run_app. change (run_from (run ops1) [Close s]) with (r_st (step (run ops1) (Close s))).
+    rewrite E. reflexivity. }
+  split; [|split; [|split]].
+  - rewrite !run_app.
+    change (run_from (run ops1) (Close s :: ops2)) with (run_from (r_st (step (run ops1) (Close s))) ops2).
+    rewrite E. reflexivity.
+  - rewrite E1. reflexivity.
+  - unfold outs. rewrite !outs_from_app. change (run_from init ops1) with (run ops1).
+    f_equal. rewrite outs_from_cons, E. reflexivity.
+  - unfold track. rewrite !track_from_app. change (track_from tr0 ops1) with (track ops1).
+    change (track_from (track ops1) (Close s :: ops2))
+      with (track_from (track_step (track ops1) (Close s)) ops2).
+    rewrite (track_close_not_open _ _ H). reflexivity.
+Qed.
+
+Lemma close_open_step : forall tr st s r, Inv st -> WLink tr st -> In (s, r) (t_open tr) ->
+  refcount (r_st (step st (Close s))) r = refcount st r - 1 /\
+  (refcount st r = 1 -> running (r_st (step st (Close s))) r = false) /\
+  (1 < refcount st r -> running (r_st (step st (Close s))) r = true) /\
+  r_panic (step st (Close s)) = false.
+Proof.
+  intros tr st s r I W Hin. destruct (wl_live _ _ W s r Hin) as [i [Hs Hc]].
+  destruct (inv_cur st I r i Hc) as [_ [Hres Hstop]].
+  assert (Hcs : st_closed st s = false).
+  { rewrite (wl_closed _ _ W s (wl_ids _ _ W _ Hin)). unfold is_open.
+    rewrite (In_opn _ _ _ Hin). reflexivity. }
+  assert (Hnz : rs_ref (st_rs st r) <> 0).
+  { intro Hz. apply (inv_ref st I) in Hz. congruence. }
+  unfold refcount, running. simpl. rewrite Hs. simpl. rewrite Hcs. simpl. rewrite Hres.
+  destruct (2 <=? rs_ref (st_rs st r)) eqn:Hge; simpl.
+  - apply Nat.leb_le in Hge. rewrite upd_same. simpl. rewrite Hc.
+    split; [reflexivity|]. split; [intro; lia|]. split; [intros _; reflexivity|reflexivity].
+  - apply Nat.leb_gt in Hge. rewrite Hstop. simpl. rewrite upd_same. simpl.
+    split; [lia|]. split; [intros _; reflexivity|]. split; [intro; lia|reflexivity].
+Qed.
+
+(* the first Close of an open subscription takes exactly one reference *)
+Theorem close_open_decrements : forall ops s r, In (s, r) (t_open (track ops)) ->
   let st' := r_st (step (run ops) (Close s)) in
   refcount st' r = refcount (run ops) r - 1 /\
   (refcount (run ops) r = 1 -> running st' r = false) /\
+  (1 < refcount (run ops) r -> running st' r = true) /\
   r_panic (step (run ops) (Close s)) = false.
-Proof. intros ops s r Hl Hr. apply close_live_step; [apply Inv_run|assumption|assumption]. Qed.
+Proof.
+  intros ops s r Hin. destruct (WLink_run ops) as [W _].
+  apply (close_open_step (track ops)); [apply Inv_run|exact W|exact Hin].
+Qed.
 
 (* ------------------------------------------------------------------ *)
 (* isolation of Close                                                   *)
@@ -1251,8 +1373,32 @@ Proof.
   pose proof (t_nsub_mono_step tr o). lia.
 Qed.
 
-(* sl and sr agree on everything except the reference count of r, which is one higher in sr *)
-Record RefSim (r : nat) (sl sr : state) : Prop := {
+(* a subscription stays bound to its informer, and an informer keeps its resource *)
+Lemma sub_res_step : forall st o a i, Inv st -> st_sub st a = Some i ->
+  st_sub (r_st (step st o)) a = Some i /\
+  i_res (st_inf (r_st (step st o)) i) = i_res (st_inf st i).
+Proof.
+  intros st o a i I Ha. destruct (inv_sub st I a i Ha) as [Hlt Hi].
+  Ltac updi := unfold upd;
+    match goal with |- context [Nat.eqb ?x ?y] => destruct (Nat.eqb_spec x y) end;
+    try subst; reflexivity.
+  destruct o as [x|s h own|s|s|x k o|s h]; simpl.
+  - destruct (rs_cur (st_rs st x)) as [j|]; simpl; split;
+      try (rewrite upd_other by lia); try assumption; reflexivity.
+  - destruct (st_sub st s) as [j|]; simpl; (split; [assumption|]); [updi|reflexivity].
+  - destruct (st_sub st s) as [j|]; simpl; (split; [assumption|]); [updi|reflexivity].
+  - destruct (st_sub st s) as [j|]; simpl; [|split; [assumption|reflexivity]].
+    destruct (st_closed st s); simpl; [split; [assumption|reflexivity]|].
+    destruct (2 <=? rs_ref (st_rs st (i_res (st_inf st j)))); simpl; [split; [assumption|reflexivity]|].
+    destruct (i_stopped (st_inf st j)); simpl; (split; [assumption|]); [reflexivity|updi].
+  - destruct (rs_cur (st_rs st x)) as [j|]; simpl; (split; [assumption|]); [updi|reflexivity].
+  - destruct (st_sub st s) as [j|]; simpl; (split; [assumption|reflexivity]).
+Qed.
+
+(* sl (where a has been closed) and sr (where a has not been closed yet when d = true) agree on
+   everything except: the reference count of r is one higher in sr while d = true, and
+   closeOnce of a has fired in sl and, in sr, only once d = false *)
+Record RefSim (a r : nat) (d : bool) (sl sr : state) : Prop := {
   fs_ninf : st_ninf sl = st_ninf sr;
   fs_nsub : st_nsub sl = st_nsub sr;
   fs_inf : forall i, st_inf sl i = st_inf sr i;
@@ -1261,113 +1407,145 @@ Record RefSim (r : nat) (sl sr : state) : Prop := {
   fs_gen : forall x, rs_gen (st_rs sl x) = rs_gen (st_rs sr x);
   fs_store : forall x, rs_store (st_rs sl x) = rs_store (st_rs sr x);
   fs_ref : forall x, x <> r -> rs_ref (st_rs sl x) = rs_ref (st_rs sr x);
-  fs_ref_r : rs_ref (st_rs sr r) = S (rs_ref (st_rs sl r))
+  fs_ref_r : rs_ref (st_rs sr r) = rs_ref (st_rs sl r) + (if d then 1 else 0);
+  fs_closed : forall s, s <> a -> st_closed sl s = st_closed sr s;
+  fs_closed_l : st_closed sl a = true;
+  fs_closed_r : st_closed sr a = negb d
 }.
 
-Lemma RefSim_step : forall r b trL sl sr o,
-  Inv sl -> WLink trL sl -> RefSim r sl sr ->
-  In (b, r) (t_open trL) -> wf_step trL o = true -> In (b, r) (t_open (track_step trL o)) ->
-  RefSim r (r_st (step sl o)) (r_st (step sr o)) /\ r_out (step sl o) = r_out (step sr o).
+Lemma RefSim_step : forall a r b d trL sl sr o,
+  Inv sl -> WLink trL sl -> RefSim a r d sl sr ->
+  (exists i, st_sub sl a = Some i /\ i_res (st_inf sl i) = r) ->
+  In (b, r) (t_open trL) -> In (b, r) (t_open (track_step trL o)) ->
+  exists d', RefSim a r d' (r_st (step sl o)) (r_st (step sr o)) /\ r_out (step sl o) = r_out (step sr o).
 Proof.
-  intros r b trL sl sr o I W R Hb Hwf Hb'.
+  intros a r b d trL sl sr o I W R HA Hb Hb'.
   pose proof R as R0.
-  destruct R as [Hninf Hnsub Hinf Hsub Hcur Hgen Hstore Href Hrefr].
+  destruct R as [Hninf Hnsub Hinf Hsub Hcur Hgen Hstore Href Hrefr Hcl HclL HclR].
   destruct (wl_live _ _ W b r Hb) as [ib [Hsb Hcb]].
-  Ltac fin_sim Hninf Hnsub Hinf Hsub Hcur Hgen Hstore Href :=
+  assert (H1 : 1 <= rs_ref (st_rs sl r)).
+  { rewrite (wl_ref _ _ W). unfold open_count. apply (In_cnt_pos b). exact Hb. }
+  Ltac fin_sim Hninf Hnsub Hinf Hsub Hcur Hgen Hstore Href Hcl :=
     constructor; simpl; intros; unfold upd;
     repeat match goal with |- context [Nat.eqb ?a ?b] => destruct (Nat.eqb_spec a b) end;
     simpl;
     rewrite ?Hninf, ?Hnsub, ?Hinf, ?Hsub, ?Hcur, ?Hgen, ?Hstore;
-    try match goal with H : _ <> _ |- _ => learn (Href _ H) end;
-    first [reflexivity | congruence | lia].
+    repeat match goal with H : _ <> _ |- _ => learn (Href _ H) end;
+    repeat match goal with H : _ <> _ |- _ => learn (Hcl _ H) end;
+    first [reflexivity | assumption | congruence | lia].
   destruct o as [x|s h own|s|s|x k o|s h]; simpl.
   - (* Subscribe *)
-    rewrite <- Hcur. destruct (rs_cur (st_rs sl x)) as [i|] eqn:Hc; simpl; (split; [|reflexivity]).
-    + fin_sim Hninf Hnsub Hinf Hsub Hcur Hgen Hstore Href.
+    rewrite <- Hcur. destruct (rs_cur (st_rs sl x)) as [i|] eqn:Hc; simpl;
+      exists d; (split; [|reflexivity]).
+    + fin_sim Hninf Hnsub Hinf Hsub Hcur Hgen Hstore Href Hcl.
     + assert (Hx : x <> r) by congruence.
-      fin_sim Hninf Hnsub Hinf Hsub Hcur Hgen Hstore Href.
+      fin_sim Hninf Hnsub Hinf Hsub Hcur Hgen Hstore Href Hcl.
   - (* AddHandler *)
-    rewrite <- Hsub. destruct (st_sub sl s) as [i|] eqn:Hs; simpl; [|split; [exact R0|reflexivity]].
+    rewrite <- Hsub. destruct (st_sub sl s) as [i|] eqn:Hs; simpl; exists d;
+      [|split; [exact R0|reflexivity]].
     split; [|rewrite ?Hinf; reflexivity].
-    fin_sim Hninf Hnsub Hinf Hsub Hcur Hgen Hstore Href.
+    fin_sim Hninf Hnsub Hinf Hsub Hcur Hgen Hstore Href Hcl.
   - (* RemoveHandlers *)
-    rewrite <- Hsub. destruct (st_sub sl s) as [i|] eqn:Hs; simpl; [|split; [exact R0|reflexivity]].
+    rewrite <- Hsub. destruct (st_sub sl s) as [i|] eqn:Hs; simpl; exists d;
+      [|split; [exact R0|reflexivity]].
     split; [|reflexivity].
-    fin_sim Hninf Hnsub Hinf Hsub Hcur Hgen Hstore Href.
+    fin_sim Hninf Hnsub Hinf Hsub Hcur Hgen Hstore Href Hcl.
   - (* Close *)
-    rewrite <- Hsub. destruct (st_sub sl s) as [i|] eqn:Hs; simpl; [|split; [exact R0|reflexivity]].
-    rewrite <- Hinf.
-    destruct (Nat.eq_dec (i_res (st_inf sl i)) r) as [E|E].
-    + (* same resource as b: s and b are two open subscriptions on r, both sides decrement *)
-      assert (H2 : 2 <= rs_ref (st_rs sl r)).
-      { simpl in Hwf. apply is_open_In in Hwf. destruct Hwf as [r2 Hin].
-        destruct (wl_live _ _ W s r2 Hin) as [i2 [Hs2 Hc2]].
-        assert (i2 = i) by congruence. subst i2.
-        destruct (inv_cur sl I r2 i Hc2) as [_ [Hres _]].
-        assert (r2 = r) by congruence. clear Hres. subst r2.
-        rewrite (wl_ref _ _ W). unfold open_count.
-        apply (cnt_two s b); [apply (wl_nodup _ _ W)| |assumption|assumption].
-        simpl in Hb'. apply filter_In in Hb'. destruct Hb' as [_ Hb']. simpl in Hb'.
-        destruct (Nat.eqb_spec b s); [discriminate|congruence]. }
-      rewrite E.
-      replace (2 <=? rs_ref (st_rs sl r)) with true by (symmetry; apply Nat.leb_le; lia).
-      replace (2 <=? rs_ref (st_rs sr r)) with true by (symmetry; apply Nat.leb_le; lia).
-      simpl. split; [|reflexivity].
-      fin_sim Hninf Hnsub Hinf Hsub Hcur Hgen Hstore Href.
-    + rewrite <- (Href _ E).
-      destruct (2 <=? rs_ref (st_rs sl (i_res (st_inf sl i)))); simpl.
-      * split; [|reflexivity]. fin_sim Hninf Hnsub Hinf Hsub Hcur Hgen Hstore Href.
-      * destruct (i_stopped (st_inf sl i)); simpl; (split; [|reflexivity]); [exact R0|].
-        fin_sim Hninf Hnsub Hinf Hsub Hcur Hgen Hstore Href.
+    rewrite <- Hsub. destruct (st_sub sl s) as [i|] eqn:Hs; simpl;
+      [|exists d; split; [exact R0|reflexivity]].
+    destruct (Nat.eq_dec s a) as [Esa|Esa].
+    + (* Close a again: nothing on the left; on the right it is the first one while d = true *)
+      subst s. rewrite HclL, HclR.
+      assert (Hai : i_res (st_inf sl i) = r).
+      { destruct HA as [i0 [HA1 HA2]]. congruence. }
+      destruct d; simpl in Hrefr, HclR; simpl.
+      * rewrite <- Hinf, Hai.
+        replace (2 <=? rs_ref (st_rs sr r)) with true by (symmetry; apply Nat.leb_le; lia).
+        simpl. exists false. split; [|reflexivity].
+        fin_sim Hninf Hnsub Hinf Hsub Hcur Hgen Hstore Href Hcl.
+      * exists false. split; [exact R0|reflexivity].
+    + rewrite <- (Hcl s Esa).
+      destruct (st_closed sl s) eqn:Hcs; simpl; [exists d; split; [exact R0|reflexivity]|].
+      rewrite <- Hinf.
+      destruct (Nat.eq_dec (i_res (st_inf sl i)) r) as [E|E].
+      * (* same resource as b: s and b are two open subscriptions on r, both sides decrement *)
+        assert (H2 : 2 <= rs_ref (st_rs sl r)).
+        { destruct (inv_sub sl I s i Hs) as [Hlt _].
+          assert (Hop : is_open trL s = true).
+          { pose proof (wl_closed _ _ W s) as Hw. rewrite (wl_nsub _ _ W) in Hw.
+            specialize (Hw Hlt). rewrite Hcs in Hw. destruct (is_open trL s); [reflexivity|discriminate]. }
+          apply is_open_In in Hop. destruct Hop as [r2 Hin].
+          destruct (wl_live _ _ W s r2 Hin) as [i2 [Hs2 Hc2]].
+          assert (i2 = i) by congruence. subst i2.
+          destruct (inv_cur sl I r2 i Hc2) as [_ [Hres _]].
+          assert (r2 = r) by congruence. clear Hres. subst r2.
+          rewrite (wl_ref _ _ W). unfold open_count.
+          apply (cnt_two s b); [apply (wl_nodup _ _ W)| |assumption|assumption].
+          simpl in Hb'. apply filter_In in Hb'. destruct Hb' as [_ Hb']. simpl in Hb'.
+          destruct (Nat.eqb_spec b s); [discriminate|congruence]. }
+        rewrite E.
+        replace (2 <=? rs_ref (st_rs sl r)) with true by (symmetry; apply Nat.leb_le; lia).
+        replace (2 <=? rs_ref (st_rs sr r)) with true by (symmetry; apply Nat.leb_le; lia).
+        simpl. exists d. split; [|reflexivity].
+        fin_sim Hninf Hnsub Hinf Hsub Hcur Hgen Hstore Href Hcl.
+      * rewrite <- (Href _ E).
+        destruct (2 <=? rs_ref (st_rs sl (i_res (st_inf sl i)))); simpl.
+        -- exists d. split; [|reflexivity]. fin_sim Hninf Hnsub Hinf Hsub Hcur Hgen Hstore Href Hcl.
+        -- destruct (i_stopped (st_inf sl i)); simpl; exists d; (split; [|reflexivity]);
+             fin_sim Hninf Hnsub Hinf Hsub Hcur Hgen Hstore Href Hcl.
   - (* Event *)
-    rewrite <- Hcur. destruct (rs_cur (st_rs sl x)) as [i|] eqn:Hc; simpl.
+    rewrite <- Hcur. destruct (rs_cur (st_rs sl x)) as [i|] eqn:Hc; simpl; exists d.
     + split; [|rewrite ?Hinf; reflexivity].
-      fin_sim Hninf Hnsub Hinf Hsub Hcur Hgen Hstore Href.
+      fin_sim Hninf Hnsub Hinf Hsub Hcur Hgen Hstore Href Hcl.
     + split; [|reflexivity].
-      fin_sim Hninf Hnsub Hinf Hsub Hcur Hgen Hstore Href.
+      fin_sim Hninf Hnsub Hinf Hsub Hcur Hgen Hstore Href Hcl.
   - (* Tick *)
-    rewrite <- Hsub. destruct (st_sub sl s) as [i|] eqn:Hs; simpl; [|split; [exact R0|reflexivity]].
+    rewrite <- Hsub. destruct (st_sub sl s) as [i|] eqn:Hs; simpl; exists d;
+      [|split; [exact R0|reflexivity]].
     split; [exact R0|rewrite ?Hinf; reflexivity].
 Qed.
 
-Lemma RefSim_run : forall r b ops trL sl sr,
-  Inv sl -> WLink trL sl -> RefSim r sl sr -> In (b, r) (t_open trL) ->
-  wf_from trL ops = true -> In (b, r) (t_open (track_from trL ops)) ->
+Lemma RefSim_run : forall a r b ops d trL sl sr,
+  Inv sl -> WLink trL sl -> RefSim a r d sl sr ->
+  (exists i, st_sub sl a = Some i /\ i_res (st_inf sl i) = r) ->
+  In (b, r) (t_open trL) -> In (b, r) (t_open (track_from trL ops)) ->
   trace_from sl ops = trace_from sr ops.
 Proof.
-  induction ops as [|o ops IH]; intros trL sl sr I W R Hb Hwf Hend; simpl; [reflexivity|].
-  simpl in Hwf, Hend. apply andb_true_iff in Hwf. destruct Hwf as [H1 H2].
-  destruct (WLink_step trL sl o I W H1) as [W' _].
+  induction ops as [|o ops IH]; intros d trL sl sr I W R HA Hb Hend; simpl; [reflexivity|].
+  simpl in Hend.
+  destruct (WLink_step trL sl o I W) as [W' _].
   assert (Hb' : In (b, r) (t_open (track_step trL o))).
   { apply (open_from_back ops); [|assumption].
     pose proof (wl_ids _ _ W _ Hb) as Hlt. pose proof (t_nsub_mono_step trL o). simpl in Hlt. lia. }
-  destruct (RefSim_step r b trL sl sr o I W R Hb H1 Hb') as [R' Ho].
+  destruct (RefSim_step a r b d trL sl sr o I W R HA Hb Hb') as [d' [R' Ho]].
+  assert (HA' : exists i, st_sub (r_st (step sl o)) a = Some i /\
+                          i_res (st_inf (r_st (step sl o)) i) = r).
+  { destruct HA as [i [HA1 HA2]]. destruct (sub_res_step sl o a i I HA1) as [S1 S2].
+    exists i. split; [exact S1|congruence]. }
   rewrite Ho. f_equal.
-  apply (IH (track_step trL o)); try assumption. apply Inv_step; assumption.
+  apply (IH d' (track_step trL o)); try assumption. apply Inv_step; assumption.
 Qed.
 
 Lemma close_out_nil : forall st s, r_out (step st (Close s)) = [].
 Proof.
   intros st s. simpl. destruct (st_sub st s); [|reflexivity].
+  destruct (st_closed st s); [reflexivity|].
   destruct (2 <=? _); [reflexivity|]. destruct (i_stopped _); reflexivity.
 Qed.
 
 (* isolation of Close: if a and b are both open on resource r, closing a changes no delivery at all
-   (in particular none of b's) as long as b stays open *)
+   (in particular none of b's) as long as b stays open — whatever else is done, including further
+   Close calls through a *)
 Theorem isolation_close : forall ops1 ops2 a b r,
-  wf_ops (ops1 ++ Close a :: ops2) = true -> a <> b ->
+  a <> b ->
   In (a, r) (t_open (track ops1)) -> In (b, r) (t_open (track ops1)) ->
   In (b, r) (t_open (track (ops1 ++ Close a :: ops2))) ->
   trace_from (run (ops1 ++ [Close a])) ops2 = trace_from (run ops1) ops2 /\
   outs (ops1 ++ Close a :: ops2) = outs (ops1 ++ ops2).
 Proof.
-  intros ops1 ops2 a b r Hwf Hab Ha Hb Hend.
-  unfold wf_ops in Hwf. rewrite wf_from_app in Hwf. apply andb_true_iff in Hwf.
-  destruct Hwf as [Hwf1 Hwf2].
-  change (track_from tr0 ops1) with (track ops1) in Hwf2.
-  simpl in Hwf2. apply andb_true_iff in Hwf2. destruct Hwf2 as [Hwa Hwf2].
-  destruct (WLink_run ops1 Hwf1) as [W _]. pose proof (Inv_run ops1) as I.
-  destruct (WLink_step (track ops1) (run ops1) (Close a) I W Hwa) as [W' _].
+  intros ops1 ops2 a b r Hab Ha Hb Hend.
+  destruct (WLink_run ops1) as [W _]. pose proof (Inv_run ops1) as I.
+  destruct (WLink_step (track ops1) (run ops1) (Close a) I W) as [W' _].
   assert (Hb' : In (b, r) (t_open (track_step (track ops1) (Close a)))).
   { simpl. apply filter_In. split; [assumption|]. simpl.
     destruct (Nat.eqb_spec b a); [congruence|reflexivity]. }
@@ -1375,19 +1553,26 @@ Proof.
   { unfold track in Hend. rewrite track_from_app in Hend. exact Hend. }
   assert (Hrun : run (ops1 ++ [Close a]) = r_st (step (run ops1) (Close a))).
   { rewrite run_app. reflexivity. }
-  assert (R : RefSim r (r_st (step (run ops1) (Close a))) (run ops1)).
-  { destruct (wl_live _ _ W a r Ha) as [i [Hs Hc]].
-    destruct (inv_cur _ I r i Hc) as [_ [Hres _]].
-    assert (H2 : 2 <= rs_ref (st_rs (run ops1) r)).
+  destruct (wl_live _ _ W a r Ha) as [i [Hs Hc]].
+  destruct (inv_cur _ I r i Hc) as [_ [Hres _]].
+  assert (Hcs : st_closed (run ops1) a = false).
+  { rewrite (wl_closed _ _ W a (wl_ids _ _ W _ Ha)). unfold is_open.
+    rewrite (In_opn _ _ _ Ha). reflexivity. }
+  assert (R : RefSim a r true (r_st (step (run ops1) (Close a))) (run ops1)).
+  { assert (H2 : 2 <= rs_ref (st_rs (run ops1) r)).
     { rewrite (wl_ref _ _ W). unfold open_count.
       apply (cnt_two a b); [apply (wl_nodup _ _ W)|assumption|assumption|assumption]. }
-    simpl. rewrite Hs, Hres.
+    simpl. rewrite Hs. simpl. rewrite Hcs. simpl. rewrite Hres.
     replace (2 <=? rs_ref (st_rs (run ops1) r)) with true by (symmetry; apply Nat.leb_le; lia).
     simpl. constructor; simpl; intros; try reflexivity; unfold upd;
       repeat match goal with |- context [Nat.eqb ?x ?y] => destruct (Nat.eqb_spec x y) end;
-      simpl; first [reflexivity | congruence | lia]. }
+      simpl; first [reflexivity | assumption | congruence | lia]. }
+  assert (HA : exists i0, st_sub (r_st (step (run ops1) (Close a))) a = Some i0 /\
+                          i_res (st_inf (r_st (step (run ops1) (Close a))) i0) = r).
+  { destruct (sub_res_step (run ops1) (Close a) a i I Hs) as [S1 S2].
+    exists i. split; [exact S1|congruence]. }
   assert (T : trace_from (r_st (step (run ops1) (Close a))) ops2 = trace_from (run ops1) ops2).
-  { apply (RefSim_run r b ops2 (track_step (track ops1) (Close a))); try assumption.
+  { apply (RefSim_run a r b ops2 true (track_step (track ops1) (Close a))); try assumption.
     apply Inv_step; assumption. }
   split.
   - rewrite Hrun. exact T.
